@@ -101,6 +101,7 @@ def stepLine (st : St) (w : List String) : St × String :=
     | _, _ => (st, "bad-op")
   | ["save", _, _] => both st .save false
   | ["reopen"] => both st .reopen false
+  | ["reopen", _] => both st .reopen false   -- with Options.UnzipXMLSizeLimit (parts spilled to temp files)
   | "craft" :: sh :: spec => match nat sh, parseRows spec none [] with
     | some sh, some rows =>
       match reopen st.wb with
